@@ -323,12 +323,14 @@ const (
 	VerifPeerSlow              // answers correctly after DelayMs (possibly after its request expired)
 	VerifPeerPartial           // answers only the first half of each request
 	VerifPeerEmpty             // answers with an empty list
+	VerifPeerStallFirst        // never answers its first request, answers every later one completely and correctly
 )
 
 type VerifLoopPeer struct {
-	ID      string
-	Kind    int
-	DelayMs int
+	ID         string
+	Kind       int
+	DelayMs    int
+	Throughput int // preset measured body throughput (items/s); 0 = what RegisterPeer assigns
 }
 
 type VerifLoopConfig struct {
@@ -402,6 +404,10 @@ func (p *verifLoopPeer) RequestBodies(hashes []common.Hash) error {
 	switch p.cfg.Kind {
 	case VerifPeerStaller:
 		return nil
+	case VerifPeerStallFirst:
+		if call == 1 {
+			return nil
+		}
 	case VerifPeerDisconnect:
 		return p.d.UnregisterPeer(p.cfg.ID)
 	case VerifPeerLiarOnce:
@@ -469,6 +475,13 @@ func VerifRunFetchLoop(cfg VerifLoopConfig) *VerifLoopResult {
 		if err := d.RegisterPeer(pc.ID, fp); err != nil {
 			res.Err = "register: " + err.Error()
 			return res
+		}
+		if pc.Throughput > 0 {
+			if conn := d.peers.Peer(pc.ID); conn != nil {
+				conn.lock.Lock()
+				conn.blockThroughput = float64(pc.Throughput)
+				conn.lock.Unlock()
+			}
 		}
 	}
 	d.queue.Reset()
